@@ -96,6 +96,70 @@ def gen_eq_text(rnd, ph):
     return out
 
 
+def gen_shelltex(rnd, cnt):
+    """LaTeX document for multi-language runs: text regions (offset, text) over a small alphabet with isolated
+    letters, separated by language commands; displayed equations (start, end, badly punctuated)
+    -> (source, regions, equations)"""
+    AL2 = ['a', 'b', 'I', 'x', 'word', 'Wort', '1', '.', ',', ' ', ' ', ' ', '\n', 'e.g.', '-', '(', ')', ';', 'ab', 'y',
+           'K', 'text', 'ä', 'z']
+    parts = []
+    pos = [0]
+    regions = []
+    eqs = []        # (start, end, bad)
+
+    def emit(s):
+        parts.append(s)
+        pos[0] += len(s)
+
+    def region(a, b, reuse=None):
+        r = reuse or a + ' ' + ''.join(rnd.choice(AL2) for _ in range(rnd.randint(3, 14))) + ' ' + b
+        r = re.sub(r'\n\s*\n', '\n', r)
+        regions.append((pos[0], r))
+        emit(r)
+        return r
+    blocks = []
+
+    def equation():
+        bad = rnd.random() < .5
+        emit(' Then\n')
+        st = pos[0]
+        emit('\\[ a=b' + ('' if bad else '.') + ' \\]')
+        eqs.append((st, pos[0], bad))
+        emit('\n' + ('Next' if bad else 'next') + ' we go on.\n')
+    emit('\\usepackage{babel}\n')
+    region('Start', 'end.')
+    for k in range(rnd.randint(1, 4)):
+        kind = rnd.choice(['env', 'env', 'env', 'select', 'foreign'])
+        lg = rnd.choice(['german', 'french', 'english', 'ngerman'])     # (placeholder collections as for the main language)
+        if kind == 'env' and blocks and rnd.random() < .5:
+            # the very same passage once more: an identical part is submitted twice in one run
+            lg, r = rnd.choice(blocks)
+            emit('\n\\begin{otherlanguage}{%s}\n' % lg)
+            region('', '', reuse=r)
+            emit('\n\\end{otherlanguage}\n')
+            cnt['shelltex_repeated_part'] = 1
+        elif kind == 'env':
+            emit('\n\\begin{otherlanguage}{%s}\n' % lg)
+            r = region('Anfang', 'und Ende hier.')
+            if rnd.random() < .5:
+                equation()
+            else:
+                blocks.append((lg, r))
+            emit('\n\\end{otherlanguage}\n')
+        elif kind == 'select':
+            emit('\n\n\\selectlanguage{%s}\n\n' % lg)
+        else:
+            emit('\n\\foreignlanguage{%s}{' % lg)
+            region('Anfang', 'und Ende hier.')
+            emit('}\n')
+        region('Again', 'done.')
+        if rnd.random() < .4:
+            equation()
+    emit('\n')
+    src = ''.join(parts)
+    return src, regions, eqs
+
+
 class C20(core.Check):
     id = 'C20'
     level = 'exploration'
@@ -155,64 +219,7 @@ class C20(core.Check):
     def judge_shelltex(self, case, cnt):
         """LaTeX input in multi-language mode: several separately checked parts; every message of the own checks
         must select the offending characters in the LaTeX file, also in the second and later parts"""
-        rnd = random.Random(case['s'])
-        AL2 = ['a', 'b', 'I', 'x', 'word', 'Wort', '1', '.', ',', ' ', ' ', ' ', '\n', 'e.g.', '-', '(', ')', ';', 'ab', 'y',
-               'K', 'text', 'ä', 'z']
-        parts = []
-        pos = [0]
-        regions = []
-        eqs = []        # (start, end, bad)
-
-        def emit(s):
-            parts.append(s)
-            pos[0] += len(s)
-
-        def region(a, b, reuse=None):
-            r = reuse or a + ' ' + ''.join(rnd.choice(AL2) for _ in range(rnd.randint(3, 14))) + ' ' + b
-            r = re.sub(r'\n\s*\n', '\n', r)
-            regions.append((pos[0], r))
-            emit(r)
-            return r
-        blocks = []
-
-        def equation():
-            bad = rnd.random() < .5
-            emit(' Then\n')
-            st = pos[0]
-            emit('\\[ a=b' + ('' if bad else '.') + ' \\]')
-            eqs.append((st, pos[0], bad))
-            emit('\n' + ('Next' if bad else 'next') + ' we go on.\n')
-        emit('\\usepackage{babel}\n')
-        region('Start', 'end.')
-        for k in range(rnd.randint(1, 4)):
-            kind = rnd.choice(['env', 'env', 'env', 'select', 'foreign'])
-            lg = rnd.choice(['german', 'french', 'english', 'ngerman'])     # (placeholder collections as for the main language)
-            if kind == 'env' and blocks and rnd.random() < .5:
-                # the very same passage once more: an identical part is submitted twice in one run
-                lg, r = rnd.choice(blocks)
-                emit('\n\\begin{otherlanguage}{%s}\n' % lg)
-                region('', '', reuse=r)
-                emit('\n\\end{otherlanguage}\n')
-                cnt['shelltex_repeated_part'] = 1
-            elif kind == 'env':
-                emit('\n\\begin{otherlanguage}{%s}\n' % lg)
-                r = region('Anfang', 'und Ende hier.')
-                if rnd.random() < .5:
-                    equation()
-                else:
-                    blocks.append((lg, r))
-                emit('\n\\end{otherlanguage}\n')
-            elif kind == 'select':
-                emit('\n\n\\selectlanguage{%s}\n\n' % lg)
-            else:
-                emit('\n\\foreignlanguage{%s}{' % lg)
-                region('Anfang', 'und Ende hier.')
-                emit('}\n')
-            region('Again', 'done.')
-            if rnd.random() < .4:
-                equation()
-        emit('\n')
-        src = ''.join(parts)
+        src, regions, eqs = gen_shelltex(random.Random(case['s']), cnt)
         fn = os.path.join(self.tmp, 'in%d.tex' % os.getpid())
         with open(fn, 'w', encoding='utf-8', newline='') as f:
             f.write(src)
